@@ -1103,6 +1103,9 @@ func TestCheck(t *testing.T) {
 				c.HarnessError("bad replay: %v", err)
 				return
 			}
+			if sp.Fam == "" {
+				return // a replay of the E3 part (checks/c07s)
+			}
 			check(c, t, sp)
 			return
 		}
